@@ -18,11 +18,17 @@ def _no_tracing():
 class SimQueue(object):
     """queue.Queue stand-in (single-threaded): get on empty raises queue.Empty immediately."""
 
-    def __init__(self):
+    def __init__(self, maxsize=0):
         self.items = collections.deque()
         self.log = []           # everything ever put
+        self.maxsize = maxsize  # as queue.Queue: 0 = unbounded
 
     def put(self, item, block=True, timeout=None):
+        if self.maxsize and len(self.items) >= self.maxsize:
+            from six.moves import queue
+            if not block or timeout is not None:
+                raise queue.Full()
+            raise api.Hang('put() on a full queue that nobody reads blocks for ever')
         self.items.append(item)
         self.log.append(item)
 
@@ -63,11 +69,13 @@ class SimSocket(object):
     def readable(self):
         return bool(self.script) or self.peer_closed or self.recv_error
 
-    def recv(self, n):
+    def recv(self, n, flags=0):
         import socket as _socket
         self.recv_calls += 1
         if self.closed:
             raise _socket.error('recv on closed socket')
+        if flags & _socket.MSG_WAITALL:
+            return wait_all(self, n)
         if self.script:
             seg = self.script.popleft()
             ln = len(seg)
@@ -110,6 +118,18 @@ class SimSocket(object):
 
     def __bool__(self):
         return True
+
+
+def wait_all(sock, n):
+    """recv(n, MSG_WAITALL): returns only when n bytes are there (or the peer closed): on a connection whose peer
+    has sent less and stays silent it blocks for ever"""
+    got = b''
+    while len(got) < n:
+        part = sock.recv(n - len(got))       # the plain recv of the same stand-in: raises Hang when nothing comes
+        if not part:
+            break
+        got = got + part
+    return got
 
 
 class SimSelect(object):
@@ -187,6 +207,6 @@ def make_provider(sock=None, store_in_file=frozenset(), get_file_cb=None, max_pd
 
     with _no_tracing():
         prov = SteppedProvider(store_in_file, get_file_cb, sock, max_pdu_length)
-        prov.to_service_user = SimQueue()
-        prov.from_service_user = SimQueue()
+        prov.to_service_user = SimQueue(getattr(prov.to_service_user, 'maxsize', 0))
+        prov.from_service_user = SimQueue(getattr(prov.from_service_user, 'maxsize', 0))
     return prov
